@@ -200,6 +200,9 @@ class StreamRun:
                     self.writer.paused = True
                 elif step[0] == "resume":
                     self.writer.resume()
+                elif step[0] == "settle":
+                    for _ in range(5):
+                        self.loop.run_until_complete(asyncio.sleep(0))
                 elif step[0] == "start":
                     i = step[1]
                     tasks[i] = self.loop.create_task(self.tr.write(texts[i]))
@@ -338,23 +341,30 @@ def random_jobs(rnd: random.Random, n: int) -> list:
     return jobs
 
 
-def concurrent_write_jobs(tier: str) -> list:
-    """Every plan of three concurrent writers: before each start the peer may pause / resume, and each start
-    may or may not be followed by a run of the loop (a task created but not yet run is overtaken by nothing)."""
-    import itertools
-    jobs = []
+def concurrent_write_jobs(tier: str, workdir: str, rep) -> list:
+    """Every complete schedule of WriteOrder.tla (three writers; create / pause / resume / one loop iteration)
+    replayed on the real transports: op "cwrite"."""
+    out = tlc.run(workdir, "MC_writeorder", "MC_writeorder.cfg", workers=1)
+    summ = tlc.summary(out)
+    live = tlc.summary(tlc.run(workdir, "MC_writeorder", "MC_writeorder_live.cfg", workers=2))
+    if summ["violated"] or summ["error"] or not summ["distinct"] or live["violated"] or live["error"]:
+        common.machinery_failure(f"WriteOrder.tla: the model violates its own formulas or TLC failed:\n{out[-2500:]}")
+    scheds = sorted({line[len('<<"WSCHEDULE", '):-2] for line in out.splitlines() if line.startswith('<<"WSCHEDULE"')})
+    summ["liveness_states"] = live["distinct"]
+    rep.add_tlc("MC_writeorder (WriteOrder.tla: concurrent writers under back pressure)", summ, {"schedules_emitted": len(scheds)})
     text_sets = [["1;0;1;0;0;" + "x" * 40 + "\n", "2;0;1;0;0;a\n", "3;0;1;0;0;c\n"], ["é;\n", "\U0001f600\n", "z\n"]]
-    k = 0
-    for toggles in itertools.product(("none", "pause", "resume"), repeat=3):
-        for settles in itertools.product((True, False), repeat=3):
-            plan = []
-            for i in range(3):
-                if toggles[i] != "none":
-                    plan.append([toggles[i]])
-                plan.append(["start", i, settles[i]])
-            for texts in (text_sets if tier == "thorough" else text_sets[:1] if k % 2 else text_sets[1:]):
-                jobs.append(("tcp" if k % 2 else "serial", 2 ** 16, [["connect", True], ["cwrite", texts, plan], ["write", "9;9;9;0;0;after\n", "none"]]))
-            k += 1
+    jobs = []
+    for k, txt in enumerate(scheds):
+        plan = []
+        for a in json.loads(json.loads(txt)):
+            if a[0] == "create":
+                plan.append(["start", a[1] - 1, False])
+            elif a[0] == "run":
+                plan.append(["settle"])
+            else:
+                plan.append([a[0]])
+        for texts in (text_sets if tier == "thorough" else [text_sets[k % 2]]):
+            jobs.append(("tcp" if k % 2 else "serial", 2 ** 16, [["connect", True], ["cwrite", texts, plan], ["write", "9;9;9;0;0;after\n", "none"]]))
     return jobs
 
 
@@ -408,7 +418,7 @@ def collect(tier: str, rnd: random.Random, workdir: str, rep) -> list:
     for k, c in enumerate(covers + covers2):
         jobs.append(("tcp" if k % 2 else "serial", 2 ** 16, concretise(c, k)))
     jobs += random_jobs(rnd, 1500 if tier == "quick" else 15000)
-    jobs += concurrent_write_jobs(tier)
+    jobs += concurrent_write_jobs(tier, workdir, rep)
     ctx = multiprocessing.get_context("fork")
     with ctx.Pool(16) as pool:
         return pool.map(run_commands, jobs, chunksize=64)
